@@ -22,15 +22,15 @@ VDOM = (-1000, 1000, 0)
 def gen_items(rnd, depth, budget, top=False):
     items = []
     n = rnd.randint(1, 3 if not top else 4)
-    kinds = ["var_k", "var_j", "chain", "swap", "probe", "probe", "fwd", "g_k", "g0", "reuse", "reuse_e", "reuse_f", "reuse_l", "reuse_x", "g_h", "var_h", "g_e", "var_e", "loopvar", "forvar", "sym_k", "probe_geom", "probe_text", "loop", "if"]
+    kinds = ["var_k", "var_j", "chain", "swap", "probe", "probe", "fwd", "g_k", "g0", "reuse", "reuse_e", "reuse_f", "reuse_l", "reuse_x", "g_h", "var_h", "g_e", "var_e", "loopvar", "forvar", "sym_k", "probe_geom", "probe_text", "g_void", "loop0_k", "var_u", "g_u", "loop", "if"]
     for _ in range(n):
         if budget[0] <= 0:
             break
         k = rnd.choice(kinds)
-        if k in ("g_k", "g0", "g_h", "g_e", "loop", "if", "loopvar", "forvar", "sym_k") and depth >= 3:
+        if k in ("g_k", "g0", "g_h", "g_e", "g_u", "loop", "if", "loopvar", "forvar", "sym_k") and depth >= 3:
             k = "probe"
         budget[0] -= 1
-        if k in ("g_k", "g0", "g_h", "g_e", "loop", "if", "loopvar", "forvar", "sym_k"):
+        if k in ("g_k", "g0", "g_h", "g_e", "g_u", "loop", "if", "loopvar", "forvar", "sym_k"):
             items.append([k, gen_items(rnd, depth + 1, budget)])
         else:
             items.append([k])
@@ -58,6 +58,9 @@ def templates(tier, seed):
         [["var_k"], ["reuse_x"], ["probe"]], [["reuse_x"], ["reuse"], ["probe"]],
         [["var_k"], ["loopvar", [["probe"]]], ["probe"]], [["loopvar", [["probe"], ["g_k", [["probe"]]]]], ["probe"]], [["var_k"], ["g_k", [["forvar", [["probe"]]], ["probe"]]], ["probe"]],
         [["var_k"], ["sym_k"], ["probe"]], [["sym_k"], ["probe"]], [["var_k"], ["probe_geom"], ["g_k", [["probe_geom"]]], ["probe_geom"]], [["var_k"], ["var_j"], ["probe_text"]],
+        [["var_k"], ["var_j"], ["loop0_k"], ["probe"]], [["g_k", [["loop0_k"], ["probe"]]], ["probe"]], [["loop0_k"], ["probe"]],
+        [["var_k"], ["g_void"], ["probe"]], [["var_k"], ["g_k", [["g_void"], ["probe"]]], ["probe"]], [["g_void"], ["probe"]], [["var_k"], ["var_j"], ["g_k", [["probe"], ["g_void"], ["probe"]]], ["g_void"], ["probe"]],
+        [["var_u"], ["probe"], ["g_u", [["probe"]]], ["probe"]], [["g_u", [["var_u"], ["probe"]]], ["probe"]],
         [["g_k", [["probe"]]], ["probe"]],                                  # first scope opened on an empty stack
         [["reuse"], ["probe"]],
         [["g_k", [["var_j"], ["probe"]]], ["probe"], ["var_k"], ["probe"]],
@@ -106,6 +109,10 @@ class Ren:
         return len(self.vars) - 1
 
 
+def rnd_void(v):
+    return f'<g k="[[{v}]]" j="0"/>'
+
+
 def lookup(stack, name):
     for sc in reversed(stack):
         if name in sc:
@@ -149,8 +156,8 @@ def render(items, ren, stack, in_scope_with_fwd=None):
             stack[-1]["j"] = ok if ok is not None else "lit:$k"
         elif k in ("probe", "fwd"):
             pos = 'xy="#later|h 1" ' if k == "fwd" else ""
-            ren.doc.append(f'<rect {pos}wh="1" data-p="$k" data-q="$j" data-r="${{line-gap}}"/>')
-            ren.expect.append(dict(k=lookup(stack, "k"), j=lookup(stack, "j"), h=lookup(stack, "line-gap")))
+            ren.doc.append(f'<rect {pos}wh="1" data-p="$k" data-q="$j" data-r="${{line-gap}}" data-u="$größe"/>')
+            ren.expect.append(dict(k=lookup(stack, "k"), j=lookup(stack, "j"), h=lookup(stack, "line-gap"), u=lookup(stack, "größe")))
             if k == "fwd":
                 ren.has_fwd = True
                 ren.features.add("fwd")
@@ -171,7 +178,7 @@ def render(items, ren, stack, in_scope_with_fwd=None):
             v = ren.newvar()
             ren.doc.append(f'<reuse href="#tpl" k="[[{v}]]"/>')
             stack.append({"k": v})
-            ren.expect.append(dict(k=lookup(stack, "k"), j=lookup(stack, "j"), h=lookup(stack, "line-gap")))
+            ren.expect.append(dict(k=lookup(stack, "k"), j=lookup(stack, "j"), h=lookup(stack, "line-gap"), u=lookup(stack, "größe")))
             stack.pop()
             ren.features.add("reuse")
         elif k in ("loopvar", "forvar"):
@@ -203,13 +210,33 @@ def render(items, ren, stack, in_scope_with_fwd=None):
             # the same variables read in a geometry attribute and in text
             kv = lookup(stack, "k")
             if isinstance(kv, int):
-                ren.doc.append('<rect xy="$k 3" wh="1" data-p="$k" data-q="$j" data-r="${line-gap}"/>')
-                ren.expect.append(dict(k=kv, j=lookup(stack, "j"), h=lookup(stack, "line-gap"), gx=kv))
+                ren.doc.append('<rect xy="$k 3" wh="1" data-p="$k" data-q="$j" data-r="${line-gap}" data-u="$größe"/>')
+                ren.expect.append(dict(k=kv, j=lookup(stack, "j"), h=lookup(stack, "line-gap"), u=lookup(stack, "größe"), gx=kv))
             else:
                 it[0] = "skip"
         elif k == "probe_text":
-            ren.doc.append('<rect wh="1" data-p="$k" data-q="$j" data-r="${line-gap}"/><text xy="0">k=$k;j=$j</text>')
-            ren.expect.append(dict(k=lookup(stack, "k"), j=lookup(stack, "j"), h=lookup(stack, "line-gap"), tx=(lookup(stack, "k"), lookup(stack, "j"))))
+            ren.doc.append('<rect wh="1" data-p="$k" data-q="$j" data-r="${line-gap}" data-u="$größe"/><text xy="0">k=$k;j=$j</text>')
+            ren.expect.append(dict(k=lookup(stack, "k"), j=lookup(stack, "j"), h=lookup(stack, "line-gap"), u=lookup(stack, "größe"), tx=(lookup(stack, "k"), lookup(stack, "j"))))
+        elif k == "loop0_k":
+            # a loop that makes no pass assigns nothing
+            ren.doc.append('<loop count="0" loop-var="k"><rect wh="1"/></loop><loop while="0" loop-var="j"><rect wh="1"/></loop>')
+        elif k == "g_void":
+            # an empty group element opens and closes its own scope: nothing outside changes
+            v = ren.newvar()
+            ren.doc.append(rnd_void(v))
+        elif k == "var_u":
+            v = ren.newvar()
+            ren.doc.append(f'<var größe="[[{v}]]"/>')
+            if ren.has_fwd:
+                ren.features.add("assign-after-fwd")
+            stack[-1]["größe"] = v
+        elif k == "g_u":
+            v = ren.newvar()
+            ren.doc.append(f'<g größe="[[{v}]]">')
+            stack.append({"größe": v})
+            render(it[1] if len(it) > 1 else [["probe"]], ren, stack)
+            stack.pop()
+            ren.doc.append("</g>")
         elif k == "var_e":
             # a definition with the empty string as value is a definition
             ren.doc.append('<var k=""/>')
@@ -227,7 +254,7 @@ def render(items, ren, stack, in_scope_with_fwd=None):
             v = ren.newvar()
             ren.doc.append(f'<reuse href="#tpll" k="[[{v}]]"/>')
             stack.append({"k": v})
-            ren.expect.append(dict(k=lookup(stack, "k"), j=lookup(stack, "j"), h=lookup(stack, "line-gap")))
+            ren.expect.append(dict(k=lookup(stack, "k"), j=lookup(stack, "j"), h=lookup(stack, "line-gap"), u=lookup(stack, "größe")))
             stack.pop()
             ren.has_fwd = True
             ren.features.add("fwd")
@@ -237,7 +264,7 @@ def render(items, ren, stack, in_scope_with_fwd=None):
             v, w = ren.newvar(), ren.newvar()
             ren.doc.append(f'<reuse href="#tplx" k="[[{v}]]" x="[[{w}]]"/>')
             stack.append({"k": v, "x": w})
-            ren.expect.append(dict(k=lookup(stack, "k"), j=lookup(stack, "j"), h=lookup(stack, "line-gap"), x=w, y=None))
+            ren.expect.append(dict(k=lookup(stack, "k"), j=lookup(stack, "j"), h=lookup(stack, "line-gap"), u=lookup(stack, "größe"), x=w, y=None))
             stack.pop()
             ren.features.add("reuse")
         elif k == "var_h":
@@ -258,7 +285,7 @@ def render(items, ren, stack, in_scope_with_fwd=None):
             v = ren.newvar()
             ren.doc.append(f'<reuse href="#tplf" k="[[{v}]]"/>')
             stack.append({"k": v})
-            ren.expect.append(dict(k=lookup(stack, "k"), j=lookup(stack, "j"), h=lookup(stack, "line-gap")))
+            ren.expect.append(dict(k=lookup(stack, "k"), j=lookup(stack, "j"), h=lookup(stack, "line-gap"), u=lookup(stack, "größe")))
             stack.pop()
             ren.has_fwd = True
             ren.features.add("fwd")
@@ -269,7 +296,7 @@ def render(items, ren, stack, in_scope_with_fwd=None):
             v = ren.newvar()
             ren.doc.append(f'<reuse href="#tple" k="[[{v}]]"/>')
             stack.append({"k": v})
-            ren.expect.append(dict(k=lookup(stack, "k"), j=lookup(stack, "j"), h=lookup(stack, "line-gap")))
+            ren.expect.append(dict(k=lookup(stack, "k"), j=lookup(stack, "j"), h=lookup(stack, "line-gap"), u=lookup(stack, "größe")))
             stack.pop()
             ren.has_fwd = True
             ren.features.add("fwd")
@@ -321,7 +348,7 @@ def replay_render(items, ren, stack, nv_start):
                 stack[-1]["k"] = oj if oj is not None else "lit:$j"
                 stack[-1]["j"] = ok if ok is not None else "lit:$k"
             elif k in ("probe", "fwd"):
-                ren.expect.append(dict(k=lookup(stack, "k"), j=lookup(stack, "j"), h=lookup(stack, "line-gap")))
+                ren.expect.append(dict(k=lookup(stack, "k"), j=lookup(stack, "j"), h=lookup(stack, "line-gap"), u=lookup(stack, "größe")))
             elif k in ("g_k", "g0"):
                 stack.append({"k": nextvar()} if k == "g_k" else {})
                 go(it[1], stack)
@@ -341,9 +368,19 @@ def replay_render(items, ren, stack, nv_start):
                 nextvar()
             elif k == "probe_geom":
                 kv = lookup(stack, "k")
-                ren.expect.append(dict(k=kv, j=lookup(stack, "j"), h=lookup(stack, "line-gap"), gx=kv if isinstance(kv, int) else None))
+                ren.expect.append(dict(k=kv, j=lookup(stack, "j"), h=lookup(stack, "line-gap"), u=lookup(stack, "größe"), gx=kv if isinstance(kv, int) else None))
             elif k == "probe_text":
-                ren.expect.append(dict(k=lookup(stack, "k"), j=lookup(stack, "j"), h=lookup(stack, "line-gap"), tx=(lookup(stack, "k"), lookup(stack, "j"))))
+                ren.expect.append(dict(k=lookup(stack, "k"), j=lookup(stack, "j"), h=lookup(stack, "line-gap"), u=lookup(stack, "größe"), tx=(lookup(stack, "k"), lookup(stack, "j"))))
+            elif k == "loop0_k":
+                pass
+            elif k == "g_void":
+                nextvar()
+            elif k == "var_u":
+                stack[-1]["größe"] = nextvar()
+            elif k == "g_u":
+                stack.append({"größe": nextvar()})
+                go(it[1] if len(it) > 1 else [["probe"]], stack)
+                stack.pop()
             elif k == "var_e":
                 stack[-1]["k"] = "lit:"
             elif k == "g_e":
@@ -353,7 +390,7 @@ def replay_render(items, ren, stack, nv_start):
             elif k == "reuse_x":
                 v, w = nextvar(), nextvar()
                 stack.append({"k": v, "x": w})
-                ren.expect.append(dict(k=lookup(stack, "k"), j=lookup(stack, "j"), h=lookup(stack, "line-gap"), x=w, y=None))
+                ren.expect.append(dict(k=lookup(stack, "k"), j=lookup(stack, "j"), h=lookup(stack, "line-gap"), u=lookup(stack, "größe"), x=w, y=None))
                 stack.pop()
             elif k == "var_h":
                 stack[-1]["line-gap"] = nextvar()
@@ -364,7 +401,7 @@ def replay_render(items, ren, stack, nv_start):
             elif k in ("reuse", "reuse_e", "reuse_f", "reuse_l"):
                 v = nextvar()
                 stack.append({"k": v})
-                ren.expect.append(dict(k=lookup(stack, "k"), j=lookup(stack, "j"), h=lookup(stack, "line-gap")))
+                ren.expect.append(dict(k=lookup(stack, "k"), j=lookup(stack, "j"), h=lookup(stack, "line-gap"), u=lookup(stack, "größe")))
                 stack.pop()
             elif k == "loop":
                 nv = counter[0]
@@ -429,9 +466,9 @@ def build(td, wrong=False):
     ren = Ren()
     stack = [{}]
     render(copy.deepcopy(td["prog"]), ren, stack)
-    doc = ('<svg><specs><rect id="tpl" wh="1" data-p="$k" data-q="$j" data-r="${line-gap}"/><rect id="tple" wh="1" data-p="$k" data-q="$j" data-r="${line-gap}" data-w="{{#later~w}}"/><rect id="tplf" xy="#later|h 2" wh="1" data-p="$k" data-q="$j" data-r="${line-gap}"/>'
-           '<rect id="tplx" wh="1" data-p="$k" data-q="$j" data-r="${line-gap}" data-x="$x" data-y="$y"/></specs>' + "".join(ren.doc) +
-           '<rect id="later" xy="0" wh="2"/><specs><rect id="tpll" wh="1" data-p="$k" data-q="$j" data-r="${line-gap}"/></specs></svg>')
+    doc = ('<svg><specs><rect id="tpl" wh="1" data-p="$k" data-q="$j" data-r="${line-gap}" data-u="$größe"/><rect id="tple" wh="1" data-p="$k" data-q="$j" data-r="${line-gap}" data-u="$größe" data-w="{{#later~w}}"/><rect id="tplf" xy="#later|h 2" wh="1" data-p="$k" data-q="$j" data-r="${line-gap}" data-u="$größe"/>'
+           '<rect id="tplx" wh="1" data-p="$k" data-q="$j" data-r="${line-gap}" data-u="$größe" data-x="$x" data-y="$y"/></specs>' + "".join(ren.doc) +
+           '<rect id="later" xy="0" wh="2"/><specs><rect id="tpll" wh="1" data-p="$k" data-q="$j" data-r="${line-gap}" data-u="$größe"/></specs></svg>')
     expect = ren.expect
     feats = ren.features
     # role signatures for known-finding matching.  The unit that is re-evaluated because of a forward reference is the
@@ -441,7 +478,7 @@ def build(td, wrong=False):
         return any(it[0] in kinds or (len(it) > 1 and has(it[1], kinds)) for it in items)
     first_fwd = next((i for i, it in enumerate(td["prog"]) if has([it], ("fwd", "reuse_e", "reuse_f", "reuse_l"))), None)
     if first_fwd is not None:
-        assigns = ("var_k", "var_j", "var_h", "var_e", "chain", "swap", "loopvar", "forvar", "sym_k")
+        assigns = ("var_k", "var_j", "var_h", "var_e", "var_u", "chain", "swap", "loopvar", "forvar", "sym_k")
         if any(has([it], assigns) for i, it in enumerate(td["prog"]) if i > first_fwd or (has([it], ("fwd", "reuse_e", "reuse_f", "reuse_l")))):
             feats.add("assign-after-fwd")
     if "assign-after-fwd" in feats:
@@ -460,14 +497,14 @@ def build(td, wrong=False):
         if len(probes) != len(expect):
             return [Obl("probe-count", FAIL, ground=True, note=f"{len(probes)} outputs for {len(expect)} probes")]
         for i, (e, ex) in enumerate(zip(probes, expect)):
-            names = [("k", "data-p"), ("j", "data-q"), ("h", "data-r")] + ([("x", "data-x"), ("y", "data-y")] if "x" in ex else [])
+            names = [("k", "data-p"), ("j", "data-q"), ("h", "data-r"), ("u", "data-u")] + ([("x", "data-x"), ("y", "data-y")] if "x" in ex else [])
             for nm, attr in names:
                 got = e.get(attr)
                 want = ex.get(nm)
                 if wrong and i == len(expect) - 1 and nm == "k":
                     want = 0 if want != 0 else None
                 if want is None or (isinstance(want, str) and want.startswith("lit:")):
-                    lit = ("${line-gap}" if nm == "h" else "$" + nm) if want is None else want[4:]
+                    lit = ("${line-gap}" if nm == "h" else "$größe" if nm == "u" else "$" + nm) if want is None else want[4:]
                     obls.append(Obl(f"probe{i}.${nm}-verbatim", PASS if got == lit else FAIL, ground=True, note=f"{got!r} expected {lit!r}"))
                 else:
                     try:
